@@ -358,9 +358,26 @@ func RunProperty(cfg *PropConfig, root string, opts RunOpts) (*PropRun, error) {
 		}
 		for _, fr := range run.Funcs {
 			var kept []*Obl
+			// an included obligation of a function is proved under that function's loop invariants: keep the
+			// obligations that establish them (inv-entry / inv-preserve) whenever anything of the function is kept
+			anyIncluded := false
+			for _, o := range fr.Obls {
+				if o.Expect == "sat" {
+					continue
+				}
+				full := strings.TrimPrefix(o.Func, libPrefix) + "/" + o.Name
+				for _, r := range inc {
+					if r.MatchString(full) {
+						anyIncluded = true
+					}
+				}
+			}
 			for _, o := range fr.Obls {
 				full := strings.TrimPrefix(o.Func, libPrefix) + "/" + o.Name
 				keep := len(inc) == 0 || o.Expect == "sat"
+				if anyIncluded && (strings.HasPrefix(o.Name, "inv-entry") || strings.HasPrefix(o.Name, "inv-preserve")) {
+					keep = true
+				}
 				for _, r := range inc {
 					if r.MatchString(full) {
 						keep = true
